@@ -1142,6 +1142,8 @@ func main() {
 		switch {
 		case cr.timedOut:
 			res.Fail("hang:child-timeout", input, fmt.Sprintf("child %d did not finish within %s (deadlock?) after %d rounds; stderr: %s", p, perChild, len(cres.Rounds), truncate(cr.stderr, 1500)))
+		case cres.Done && exitCode(cr.err) == 66 && len(logs) > 0:
+			// the race detector's exit status after it reported something: the reports above are the failure
 		case cr.err != nil || !cres.Done:
 			cls := "crash:" + crashClass(cr.stderr)
 			input["scenario"] = scenarioAt(1 << 62)
@@ -1222,6 +1224,14 @@ func cacheObs(ptrs [][]string) string {
 		rows[g] = "[" + strings.Join(cells, ";") + "]"
 	}
 	return "[" + strings.Join(rows, "; ") + "]"
+}
+
+func exitCode(err error) int {
+	var ee *exec.ExitError
+	if errors.As(err, &ee) {
+		return ee.ExitCode()
+	}
+	return 0
 }
 
 func truncate(s string, n int) string {
